@@ -202,6 +202,9 @@ Lemma app_first (a b : str) : a <> [] -> match a with c :: _ => is_space c = fal
   match a ++ b with c :: _ => is_space c = false | [] => False end.
 Proof. destruct a; [contradiction|]. cbn. auto. Qed.
 
+Lemma dd_first' s : forallb is_dd s = true -> match s with [] => True | c :: _ => is_space c = false end.
+Proof. destruct s as [|c r]; [auto|]. cbn. intros H. apply andb_true_iff in H. apply dd_not_space. tauto. Qed.
+
 Lemma slash_not_dd : is_dd c_slash = false. Proof. reflexivity. Qed.
 Lemma space_not_dd c : is_space c = true -> is_dd c = false.
 Proof. intros H. destruct (is_dd c) eqn:E; [|reflexivity]. apply dd_not_space in E. congruence. Qed.
@@ -272,7 +275,7 @@ Proof.
     use_td T D. rewrite Qs, Qd. cbn [app]. rewrite (space_not_slash c0 Hc0), Hc0.
     change (c0 :: pad0 ++ render_quad (netmask_of p)) with ((c0 :: pad0) ++ render_quad (netmask_of p)).
     rewrite lstrip_spaces by (cbn; rewrite Hc0; exact Hsp0).
-    rewrite lstrip_nonspace by (apply dd_first; assumption).
+    rewrite lstrip_nonspace by (apply dd_first'; assumption).
     rewrite Ms. unfold plen_of_dotted. rewrite Md, Pm. reflexivity.
   - (* a/netmask *)
     destruct (render_quad_facts _ Mn) as (Ms & Md & Mdd & Mne).
@@ -287,6 +290,70 @@ Proof.
     use_td T D. rewrite Qs, Qd. cbn [app]. rewrite (space_not_slash c0 Hc0), Hc0.
     change (c0 :: pad0 ++ render_quad (hostmask_of p)) with ((c0 :: pad0) ++ render_quad (hostmask_of p)).
     rewrite lstrip_spaces by (cbn; rewrite Hc0; exact Hsp0).
-    rewrite lstrip_nonspace by (apply dd_first; assumption).
+    rewrite lstrip_nonspace by (apply dd_first'; assumption).
     rewrite Ms. unfold plen_of_dotted. rewrite Md, (Ph Hp'). reflexivity.
 Qed.
+
+(* ---- soundness: whatever the constructor accepts is an address in range with a prefix length in range;
+        in particular nothing is silently truncated into some other address: the accepted text is
+        (blanks) canonical-dotted-quad [ / digits<=32 | / mask | blanks mask ] (blanks), by definition of v4_parse *)
+Lemma octet_range s n : octet s = Some n -> (n <= 255)%N.
+Proof.
+  unfold octet. destruct (negb (digits_only s)); [discriminate|]. destruct (3 <? length s); [discriminate|].
+  destruct (_ && _); [discriminate|]. destruct (parse_dec s) as [m|]; [|discriminate].
+  destruct (m <=? 255)%N eqn:E; [|discriminate]. intros H; inversion H; subst. apply N.leb_le. exact E.
+Qed.
+
+Lemma dotted_range s a : dotted s = Some a -> (0 <= a < 2 ^ 32)%Z.
+Proof.
+  unfold dotted. destruct (split_on c_dot s) as [|x [|y [|z [|w [|? ?]]]]]; try discriminate.
+  destruct (octet x) as [a1|] eqn:E1; [|discriminate]. destruct (octet y) as [a2|] eqn:E2; [|discriminate].
+  destruct (octet z) as [a3|] eqn:E3; [|discriminate]. destruct (octet w) as [a4|] eqn:E4; [|discriminate].
+  intros H; inversion H; subst. apply octet_range in E1, E2, E3, E4. unfold quad.
+  change (2 ^ 32)%Z with 4294967296%Z. lia.
+Qed.
+
+Lemma plens_lt p : In p plens -> p < 33.
+Proof. unfold plens. intros H. apply in_seq in H. lia. Qed.
+
+Lemma plen_of_mask_range m p : plen_of_mask m = Some p -> (0 <= p <= 32)%Z.
+Proof.
+  unfold plen_of_mask. destruct (find (is_netmask_for m) plens) as [q|] eqn:E.
+  - intros H; inversion H; subst. apply find_some in E. destruct E as [E _]. apply plens_lt in E. lia.
+  - destruct (find (is_hostmask_for m) plens) as [q|] eqn:E2; [|discriminate].
+    intros H; inversion H; subst. apply find_some in E2. destruct E2 as [E2 _]. apply plens_lt in E2. lia.
+Qed.
+
+Lemma plen_of_digits_range s p : plen_of_digits s = Some p -> (0 <= p <= 32)%Z.
+Proof.
+  unfold plen_of_digits. destruct (digits_only s); [|discriminate]. destruct (parse_dec s) as [n|]; [|discriminate].
+  destruct (n <=? 32)%N eqn:E; [|discriminate]. intros H; inversion H; subst. apply N.leb_le in E. lia.
+Qed.
+
+Theorem v4_parse_sound s a p : v4_parse s = Some (a, p) -> (0 <= a < 2 ^ 32)%Z /\ (0 <= p <= 32)%Z.
+Proof.
+  unfold v4_parse. destruct (negb (dotted_syntax _)); [discriminate|].
+  destruct (dotted (take_while is_dd (strip s))) as [a0|] eqn:Ed; [|discriminate].
+  pose proof (dotted_range _ _ Ed) as Ra.
+  destruct (drop_while is_dd (strip s)) as [|c r].
+  - intros H; inversion H; subst. split; [exact Ra|lia].
+  - destruct (N.eqb c c_slash).
+    + destruct (dotted_syntax r).
+      * unfold plen_of_dotted. destruct (dotted r) as [m|]; [|cbn; discriminate]. destruct (plen_of_mask m) as [q|] eqn:Eq; [|cbn; discriminate].
+        cbn. intros H; inversion H; subst. split; [exact Ra|eapply plen_of_mask_range; eauto].
+      * destruct (plen_of_digits r) as [q|] eqn:Eq; [|cbn; discriminate]. cbn. intros H; inversion H; subst.
+        split; [exact Ra|eapply plen_of_digits_range; eauto].
+    + destruct (is_space c); [|discriminate]. destruct (dotted_syntax (lstrip (c :: r))); [|discriminate].
+      unfold plen_of_dotted. destruct (dotted (lstrip (c :: r))) as [m|]; [|cbn; discriminate]. destruct (plen_of_mask m) as [q|] eqn:Eq; [|cbn; discriminate].
+      cbn. intros H; inversion H; subst. split; [exact Ra|eapply plen_of_mask_range; eauto].
+Qed.
+
+(* strings that are not an address are rejected: a fifth octet, an octet above 255, a leading zero, a prefix
+   length above 32, trailing garbage *)
+Example v4_rejects :
+  v4_parse [49;46;50;46;51;46;52;46;53]%N = None /\ v4_parse [49;46;50;46;51;46;50;53;54]%N = None /\
+  v4_parse [49;46;50;46;51;46;48;52]%N = None /\ v4_parse [49;46;50;46;51;46;52;47;51;51]%N = None /\
+  v4_parse [49;46;50;46;51;46;52;120]%N = None /\ v4_parse [49;46;50;46;51;46;52;47;50;52;120]%N = None.
+Proof. vm_compute. repeat split. Qed.
+Example v4_accepts : v4_parse [32;49;48;46;49;46;50;46;51;47;50;52;9]%N = Some (167838211, 24)%Z.
+Proof. vm_compute. reflexivity. Qed.
